@@ -70,7 +70,7 @@ PLAN = {
     "C08": dict(
         title="Announced layer shapes equal produced shapes; transitions lose nothing",
         level="proof",
-        verus=["C08_output_size.rs", "C08_flat_accept.rs", "C02_convolve.rs", "C02_deconv_forward.rs", "C02_maxpool_forward.rs", "C02_pad3d.rs", "C02_flat_view.rs"],
+        verus=["C08_output_size.rs", "C08_flat_accept.rs", "C02_convolve.rs", "C02_deconv_forward.rs", "C02_maxpool_forward.rs", "C02_pad3d.rs", "C02_flat_view.rs", "C08_dense_after.rs"],
         kani=True,
         native_checks=[("isqrt.floor", "(size as f32).sqrt() as usize == floor(sqrt(size)) for every size < 2^24: the contract of the opaque "
                                        "isqrt_f32 assumed by the flat-size units, by exhaustion on the real expression"),
@@ -138,14 +138,14 @@ PLAN = {
     "C11": dict(
         title="A feedback block computes the repeated, optionally skip-combined, layer sequence",
         level="proof",
-        verus=["C11_skip_table.rs", "C11_forward.rs"],
+        verus=["C11_skip_table.rs", "C11_forward.rs", "C08_dense_after.rs"],
         kani=True,
         native_checks=[("feedback.forward", "bounded native grid: Feedback::forward against the L-fold repeated, skip-combined layer sequence; 480 blocks")],
         undecided_clauses=[
             "tensors, shapes and each layer's forward pass are abstract in the forward unit (what a layer computes is C02; that the "
             "repetitions hold equal layers is C10; the element-wise meaning of add/sub/mul/mean is C15)",
-            "that Feedback::create unrolls the layer list `loops` times (layers.extend(clone)) and that Network::dense sets the flatten "
-            "flag of a preceding block: read, not verified"],
+            "that Feedback::create unrolls the layer list `loops` times (layers.extend(clone)): read, not verified; that Network::dense sets the flatten "
+            "flag of a preceding spatial block (and layer) and takes the flattened count is proved (unit network.dense.after)"],
     ),
     "C12": dict(
         title="validate and predict_batch are faithful aggregations of predict",
